@@ -1489,8 +1489,23 @@ const USE_CLASSES: [&str; 18] = [
 ];
 const NCLS: u64 = USE_CLASSES.len() as u64;
 
-fn usecheck_program(k: usize, classes: &[usize], shape: usize, sigil: &'static str) -> Prog {
-    let names: Vec<String> = (0..k).map(|i| format!("p{}", i)).collect();
+/// parameter-name policies: the check works on names (it renames parameters, flattens expressions to sorted name
+/// lists, strips names that appear in the result), so the spelling of the names is a dimension of its own
+const NAME_POLICIES: [&str; 4] = ["p0 p1 ..", "v0 v1 .. (sort after the letter q)", "alternating a0 z1 b2 ..", "one name a prefix of the next: pa paa paaa"];
+
+fn usecheck_names(k: usize, policy: usize) -> Vec<String> {
+    (0..k)
+        .map(|i| match policy {
+            1 => format!("v{}", i),
+            2 => format!("{}{}", if i % 2 == 0 { (b'a' + (i as u8 / 2) % 8) as char } else { (b'z' - (i as u8 / 2) % 8) as char }, i),
+            3 => format!("p{}", "a".repeat(i + 1)),
+            _ => format!("p{}", i),
+        })
+        .collect()
+}
+
+fn usecheck_program(k: usize, classes: &[usize], shape: usize, sigil: &'static str, policy: usize) -> Prog {
+    let names: Vec<String> = usecheck_names(k, policy);
     let params = match shape {
         0 => Pat::list(names.iter().map(|n| Pat::n(n)).collect()),
         1 => {
@@ -1599,9 +1614,9 @@ fn unused_report(text: &str, sigil: &str) -> Result<Vec<String>, String> {
     .unwrap_or_else(|p| Err(format!("PANIC {}", p)))
 }
 
-fn check_c17(st: &mut Stats, k: usize, classes: &[usize], shape: usize, sigil: &'static str) {
+fn check_c17(st: &mut Stats, k: usize, classes: &[usize], shape: usize, sigil: &'static str, policy: usize) {
     st.eval();
-    let prog = usecheck_program(k, classes, shape, sigil);
+    let prog = usecheck_program(k, classes, shape, sigil, policy);
     let text = prog.text();
     let replay = json!({"kind": "c17", "text": text, "sigil": sigil});
     let tag: Vec<&str> = classes.iter().map(|c| USE_CLASSES[*c]).collect();
@@ -1624,7 +1639,7 @@ fn check_c17(st: &mut Stats, k: usize, classes: &[usize], shape: usize, sigil: &
         }
     };
     st.outcome(&format!("reported-unused:{}", reported.len()));
-    let names: Vec<String> = (0..k).map(|i| format!("p{}", i)).collect();
+    let names: Vec<String> = usecheck_names(k, policy);
     let alpha = [T::nil(), T::int(5), T::p(T::int(7), T::int(9))];
     // all valuations
     let total = (alpha.len() as u64).pow(k as u32);
@@ -1700,7 +1715,7 @@ pub fn c17(thorough: bool, replay: Option<String>) -> i32 {
     }
     let cap = Some(Duration::from_secs(if thorough { 3000 } else { 50 }));
     let sigils: [&'static str; 2] = ["*standard-cl-21*", "*standard-cl-23*"];
-    let mut plan: Vec<(usize, Vec<usize>, usize, &'static str)> = vec![];
+    let mut plan: Vec<(usize, Vec<usize>, usize, &'static str, usize)> = vec![];
     let maxk = if thorough { 4 } else { 3 };
     for k in 1..=maxk {
         let total = NCLS.pow(k as u32);
@@ -1714,16 +1729,22 @@ pub fn c17(thorough: bool, replay: Option<String>) -> i32 {
                     if !thorough && k == 3 && (s != sigils[0] || shape != 0) {
                         continue;
                     }
-                    plan.push((k, classes.clone(), shape, s));
+                    for policy in 0..NAME_POLICIES.len() {
+                        // the name policies other than the first: k <= 2 in the quick tier, and k = 3 with cl21 / flat list in the thorough tier
+                        if policy > 0 && ((!thorough && (k > 2 || s != sigils[0])) || (thorough && k > 3)) {
+                            continue;
+                        }
+                        plan.push((k, classes.clone(), shape, s, policy));
+                    }
                 }
             }
         }
     }
     let n = plan.len() as u64;
     let (st, capped) = par_range(n, 8, cap, || (), |_, st, i| {
-        let (k, classes, shape, s) = &plan[i as usize];
-        check_c17(st, *k, classes, *shape, s);
+        let (k, classes, shape, s, policy) = &plan[i as usize];
+        check_c17(st, *k, classes, *shape, s, *policy);
     });
-    rep.add_sub("usage-classes", &format!("all 18^k usage-class assignments for k = 1..{} x 3 parameter-list shapes x 2 sigils ({} programs), each with all 3^k valuations", maxk, n), n, true, capped, st);
+    rep.add_sub("usage-classes", &format!("all 18^k usage-class assignments for k = 1..{} x 3 parameter-list shapes x 2 sigils x 4 parameter-name policies (p0 p1 ..; names sorting after q; alternating a../z..; names that are prefixes of each other - the last three for k <= 2 in the quick tier) ({} programs), each with all 3^k valuations", maxk, n), n, true, capped, st);
     rep.finish()
 }
